@@ -505,6 +505,7 @@ fn build_debug_for_struct(
         &item.fields,
         fields,
         use_bounds,
+        true,
         to_expr,
         &mut wcb,
     )?;
@@ -545,6 +546,7 @@ fn build_debug_for_enum(
             &variant.variant.fields,
             &variant.fields,
             use_bounds,
+            false,
             to_expr,
             &mut wcb,
         )?;
@@ -572,6 +574,7 @@ fn build_debug_expr(
     fields_source: &Fields,
     fields: &[FieldEntry],
     use_bounds: bool,
+    may_be_unsized: bool,
     to_expr: impl Fn(&FieldEntry) -> TokenStream,
     wcb: &mut WhereClauseBuilder,
 ) -> Result<TokenStream> {
@@ -603,15 +606,28 @@ fn build_debug_expr(
         expr.extend(quote!(__f.#debug_x(#name)));
         for field in fields {
             if !field.hattrs.is_debug_ignore() {
-                let e = to_expr(field);
-                // `&#e` (a reference to the reference) is `Sized` even if the field is not,
-                // so it can be coerced to `&dyn Debug`.
+                let mut e = to_expr(field);
+                if may_be_unsized && field.index + 1 == fields.len() {
+                    // The last field of a struct may be unsized, and `&T` cannot be coerced to
+                    // `&dyn Debug` then. Go through a sized wrapper that only requires `T: Debug`.
+                    e = quote!(&{
+                        struct __Tail<'__a, __T: ?::core::marker::Sized>(&'__a __T);
+                        impl<'__a, __T: ?::core::marker::Sized + ::core::fmt::Debug> ::core::fmt::Debug
+                            for __Tail<'__a, __T>
+                        {
+                            fn fmt(&self, __f: &mut ::core::fmt::Formatter) -> ::core::fmt::Result {
+                                ::core::fmt::Debug::fmt(self.0, __f)
+                            }
+                        }
+                        __Tail(#e)
+                    });
+                }
                 expr.extend(match &field.field.ident {
                     Some(ident) if is_named => {
                         let name = ident.unraw().to_string();
-                        quote! (.field(#name, &#e))
+                        quote! (.field(#name, #e))
                     }
-                    _ => quote! (.field(&#e)),
+                    _ => quote! (.field(#e)),
                 });
                 field.push_bounds_to(use_bounds, kind, wcb);
             }
